@@ -5,6 +5,7 @@ import (
 	"errors"
 	"fmt"
 	"io"
+	"math"
 
 	"github.com/btcsuite/btcd/btcec/v2"
 )
@@ -359,7 +360,16 @@ func DBigSize(r io.Reader, val interface{}, buf *[8]byte, l uint64) error {
 		if err != nil {
 			return err
 		}
+
+		// The record must consist of exactly the BigSize value, and
+		// the value must fit the target.
+		if VarIntSize(v) != l || v > math.MaxUint32 {
+			return NewTypeForDecodingErr(
+				val, "BigSize", l, VarIntSize(v),
+			)
+		}
 		*i = uint32(v)
+
 		return nil
 	}
 
@@ -368,7 +378,15 @@ func DBigSize(r io.Reader, val interface{}, buf *[8]byte, l uint64) error {
 		if err != nil {
 			return err
 		}
+
+		// The record must consist of exactly the BigSize value.
+		if VarIntSize(v) != l {
+			return NewTypeForDecodingErr(
+				val, "BigSize", l, VarIntSize(v),
+			)
+		}
 		*i = v
+
 		return nil
 	}
 
